@@ -36,8 +36,16 @@ def run_one(rf):
 
 
 if __name__ == '__main__':
-    ids = sys.argv[1:]
+    argv = sys.argv[1:]
+    only_props = None
+    if '--props' in argv:                      # --props C02,C03: run only these checks on every selected refactor (a guard run for newly added rules)
+        i = argv.index('--props')
+        only_props = argv[i + 1].split(',')
+        argv = argv[:i] + argv[i + 2:]
+    ids = argv
     rs = [r for r in REFACTORS if not ids or r['id'] in ids]
+    if only_props:
+        rs = [dict(r, props=only_props) for r in rs]
     with concurrent.futures.ThreadPoolExecutor(max_workers=6) as ex:
         res = list(ex.map(run_one, rs))
     bad = 0
